@@ -78,7 +78,7 @@ func (dec *Decoder) readStringAsBytes(utf16Length int) (data []byte, safe bool) 
 			}
 		}
 		remains := length - off
-		if remains > 0 {
+		if remains > 0 || (remains == 0 && utf16Length <= 0) {
 			dec.head += off
 			if data == nil {
 				return buf[:off], false
@@ -98,6 +98,17 @@ func (dec *Decoder) readStringAsBytes(utf16Length int) (data []byte, safe bool) 
 				}
 			}
 			return
+		}
+		for dec.tail < -remains {
+			// the rest of a split character may take more than one read
+			data = append(data, dec.buf[:dec.tail]...)
+			remains += dec.tail
+			if !dec.loadMore() {
+				if dec.Error == nil {
+					dec.Error = ErrInvalidUTF8
+				}
+				return
+			}
 		}
 		data = append(data, dec.buf[dec.head:dec.head-remains]...)
 		dec.head -= remains
